@@ -238,3 +238,19 @@ Proof.
       rewrite Q2. apply IH; try lia. intros H. injection H as H. destruct c; discriminate. }
   apply G; [discriminate|lia|lia].
 Qed.
+
+(* the loop as the source has it now: capped *)
+Theorem codegen_loop_terminates :
+  forall (C E U : Type) (pass : C -> C * E * bool) (undefined : C -> U) (take_undefined : C -> C) (no_segments : C -> bool)
+         (create_default_segment next_pass : C -> C) (e_none : E) (e_is_empty : E -> bool) (e_eqb : E -> E -> bool)
+         (u_none : U) (u_is_empty : U -> bool) (u_eqb : U -> U -> bool) (c0 : C),
+  exists cap n x, max_iterations = Some cap /\ n <= cap /\
+    codegen_loop C E U pass undefined take_undefined no_segments create_default_segment next_pass e_none e_is_empty e_eqb
+                 u_none u_is_empty u_eqb (S cap) c0 = Exited n x.
+Proof.
+  intros. unfold codegen_loop.
+  destruct max_iterations as [cap|] eqn:M; [|discriminate M].
+  destruct (loop_terminates_with_cap C E U pass undefined take_undefined no_segments create_default_segment next_pass
+              e_none e_is_empty e_eqb u_none u_is_empty u_eqb c0 cap) as (n & x & Hn & Hr).
+  exists cap, n, x. auto.
+Qed.
